@@ -11,6 +11,7 @@ import (
 
 	"verif/corpus"
 	"verif/ev"
+	"verif/oneline"
 	"verif/tc"
 	"verif/tgen"
 )
@@ -104,6 +105,17 @@ func TestPropSeeds(t *testing.T) {
 		check(t, sd.Text, sd.Name+": ")
 		check(t, crlf(sd.Text), sd.Name+" (CRLF): ")
 	}
+}
+
+// TestPropOneLiners enumerates the one-line family completely (package oneline).
+func TestPropOneLiners(t *testing.T) {
+	shard, shards := ev.Shard()
+	n := 0
+	oneline.Each(shard, shards, func(name, src string) {
+		n++
+		check(t, src, name+": ")
+	})
+	rec.ClassN("one-line family (enumerated completely)", n)
 }
 
 func TestPropGenerated(t *testing.T) {
